@@ -41,6 +41,22 @@ TARGETS = [
          fields=[("digit_count", "u8"), ("width", "u8"), ("height", "u8"), ("data", ("arr", "u8"))], helpers=[], ret=("arr", "u8"), readonly=True),
     dict(name="matrix_get_matrix_coordinates", file="src/matrix_card.rs", fn="get_matrix_coordinates", kind="method",
          fields=[("challenge_count", "u8"), ("height", "u8"), ("width", "u8"), ("coordinates", ("arr", "u8"))], helpers=[], ret="option (N * N)", readonly=True),
+    dict(name="server_verify_reconnection_attempt", file="src/server.rs", fn="verify_reconnection_attempt", kind="api",
+         fields=["username", "session_key", "reconnect_challenge_data"], mutates=True, tape=True,
+         calls={"calculate_reconnect_proof": ("calculate_reconnect_proof", "pure")},
+         field_draws={"self.reconnect_challenge_data": "reconnect_challenge_data_length"}),
+    dict(name="server_into_server", file="src/server.rs", fn="into_server", kind="api",
+         fields=["username", "server_public_key", "salt", "server_private_key", "password_verifier"], tape=True,
+         extra_params=["be : backend"],
+         calls={"srp_internal::calculate_session_key": ("calculate_session_key be", "nres"),
+                "srp_internal::calculate_client_proof": ("calculate_client_proof", "pure"),
+                "srp_internal::calculate_server_proof": ("calculate_server_proof", "pure")}),
+    dict(name="client_verify_server_proof", file="src/client.rs", fn="verify_server_proof", kind="api",
+         fields=["username", "session_key", "client_proof", "client_public_key"],
+         calls={"calculate_server_proof": ("calculate_server_proof", "pure")}),
+    dict(name="client_calculate_reconnect_values", file="src/client.rs", fn="calculate_reconnect_values", kind="api",
+         fields=["username", "session_key"], tape=True,
+         calls={"calculate_reconnect_proof": ("calculate_reconnect_proof", "pure")}),
     dict(name="skey_as_equal_slice", file="src/key.rs", fn="as_equal_slice", kind="method",
          fields=[("key", ("arr", "u8"))], helpers=[], ret=("arr", "u8"), readonly=True),
 ]
@@ -166,14 +182,56 @@ def function(t, src):
     note = "(* %s fn %s(%s) *)" % (t["file"], t["fn"], ", ".join(n_ for n_, _ in names))
     return note + "\n" + head
 
+IDENTITY = {"Proof::from_le_bytes", "ReconnectData::from_le_bytes", "PublicKey::from_le_bytes_unchecked", "Salt::from_le_bytes",
+            "SessionKey::from_le_bytes", "Sha1Hash::from_le_bytes", "as_le_bytes", "as_ref", "clone"}
+STRUCTS = {"MatchProofsError": ["client_proof", "server_proof"],
+           "SrpServer": ["username", "session_key", "reconnect_challenge_data"],
+           "SrpClient": ["username", "session_key"],
+           "SrpClientReconnection": ["challenge_data", "proof"]}
+DRAWS = {"ReconnectData": "reconnect_challenge_data_length", "Salt": "salt_length", "PrivateKey": "private_key_length"}
+
+def api(t, src):
+    """a method of the typestate API: calls into modelled functions, comparisons, random draws from the
+    explicit tape, struct / Result values as tuples / sums"""
+    sig, ret, body = find_fn(src, t["fn"], t.get("nth", 0))
+    ps = split_params(sig)
+    if not ps or ps[0][0] != "self": raise Untranslatable("not a method")
+    env, args = {}, []
+    for name, ty in ps[1:]:
+        try: pt, _ = param_type(ty)
+        except Untranslatable: pt = ("arr", "u8")
+        env[name] = ("v_" + name, pt); args.append(("v_" + name, pt))
+    for f in t["fields"]:
+        env["self." + f] = ("s_" + f, ("arr", "u8"))
+    g = Gen(env, dict(CONSTS))
+    g.calls = dict(t.get("calls", {})); g.identity_calls = set(IDENTITY); g.structs = dict(STRUCTS); g.draws = dict(DRAWS)
+    g.field_draws = dict(t.get("field_draws", {}))
+    if t.get("tape"): g.tape = "v_tape"
+    blk = Parser(tokenize(body)).block()
+    fields = ["s_" + f for f in t["fields"]]
+    def final(tail):
+        if tail is None: raise Untranslatable("method without a result")
+        parts = [tail[0]]
+        if t.get("mutates"): parts.append("(" + ", ".join(fields) + ")" if len(fields) > 1 else fields[0])
+        if t.get("tape"): parts.append("v_tape")
+        return "Some (%s)" % ", ".join(parts) if len(parts) > 1 else "Some %s" % parts[0]
+    text = g.stmts(blk, final)
+    params = "".join("(%s) " % p for p in t.get("extra_params", []))
+    params += "".join("(%s : list N) " % f for f in fields)
+    params += "".join("(%s : %s) " % (a, "list N" if isinstance(ty, tuple) else "N") for a, ty in args)
+    if t.get("tape"): params += "(v_tape : tape) "
+    head = "Definition tr_%s %s:=\n  %s." % (t["name"], params, text)
+    note = "(* %s fn %s; self fields %s; modelled callees: %s *)" % (t["file"], t["fn"], " ".join(fields), ", ".join(sorted(g.calls)) or "-")
+    return note + "\n" + head
+
 def main():
     out = ["(* GENERATED by tools/extract_steps.py from the Rust sources under /repo/src. Do not edit. *)",
-           "From Coq Require Import List NArith.", "From WS Require Import lib.Bytes lib.StepLoop Consts.", "Import ListNotations.", "Local Open Scope N_scope.", ""]
+           "From Coq Require Import List NArith.", "From WS Require Import lib.Bytes lib.Res lib.Tape lib.StepLoop Consts model.Bigint model.Srp.", "Import ListNotations.", "Local Open Scope N_scope.", ""]
     failed = []
     for t in TARGETS:
         try:
             src = strip_comments(open(os.path.join(REPO, t["file"])).read())
-            out.append({"slice_loop": slice_loop, "method": method, "function": function}[t["kind"]](t, src))
+            out.append({"slice_loop": slice_loop, "method": method, "function": function, "api": api}[t["kind"]](t, src))
         except (Untranslatable, OSError) as e:
             failed.append((t["name"], str(e)))
             out.append("(* %s: NOT TRANSLATED: %s *)" % (t["name"], str(e).replace("*)", "* )")))
